@@ -19,6 +19,9 @@ type CallSpec struct {
 	Results []string
 	Where   []*Clause
 	Text    string
+	Many    bool      // `loops`: invoked zero or more times (a traversal)
+	Until   []*Clause // the traversal stops after a call for which this holds
+	Site    string    // callee name, for the caller's `hof <Callee>#n loop invariant`
 }
 
 var reCalls = regexp.MustCompile(`^(\w+)\s*\(([^)]*)\)\s*(->\s*(.*))?$`)
@@ -50,6 +53,12 @@ func (e *Engine) contractCalls(st *State, instr ssa.Instruction, env *Env, calls
 		return
 	}
 	cs := calls[0]
+	if cs.Many {
+		e.contractLoop(st, instr, env, cs, func(st2 *State, env2 *Env) {
+			e.contractCalls(st2, instr, env2, calls[1:], k)
+		})
+		return
+	}
 	fv, ok := env.names[cs.Param]
 	if !ok {
 		panic("spec error: calls: no parameter " + cs.Param)
